@@ -11,6 +11,7 @@ package main
 import (
 	"fmt"
 	"math/big"
+	"os"
 	"runtime"
 	"sync"
 	"time"
@@ -279,10 +280,9 @@ func main() {
 		}
 		defer pq.Close()
 
-		if bad := refexchange.VerifyGroups(); bad != "" {
-			fmt.Println("C13: embedded group is not a 2048-bit safe prime:", bad)
-			c.NotExhaustive("infrastructure: embedded group %s failed verification", bad)
-			return
+		if bad := refexchange.VerifyGroups() + refexchange.VerifyCandidates(); bad != "" {
+			fmt.Fprintln(os.Stderr, "C13: embedded group/candidate does not have its stated form:", bad)
+			os.Exit(2)
 		}
 
 		t0 := time.Now()
